@@ -107,7 +107,7 @@ def run(ctx):
             if ev[0] == "call" and ev[2].startswith("repo:") and ev[3]:
                 a = ev[3][0]
                 kind = expected_args.get(a)
-                if kind and kind != "envelope":
+                if kind:
                     used.setdefault((ev[2][5:].split("[")[0], kind), ev[1])
             if ev[0] == "loop":
                 for bp in ev[4]:
@@ -121,7 +121,13 @@ def run(ctx):
     for (q, kind), st_ in sorted(used.items()):
         if q in priv:
             continue  # analysed in place as part of the checker
-        ok, detail = function_decides(eng, q, kind)
+        if kind == "envelope":
+            from .c15 import raiser_exact
+
+            ok, why = raiser_exact(eng, q, "envelope")
+            detail = {"deviation": why}
+        else:
+            ok, detail = function_decides(eng, q, kind)
         ctx.count("R3.subvalidators")
         ctx.ob("R3", "decides|%s|%s" % (q, kind), st_.loc(), "%s %s the '%s' grammar" % (q, "decides exactly" if ok else "does NOT decide exactly", kind), ok, detail if not ok else None)
     ctx.floor("R3.subvalidators", 6)
